@@ -91,7 +91,7 @@ CHECKS["C16"] = {
     "rule": "case = (content kind/length/seed, configuration, end_chunk offsets, two write-cut lists, edit). Non-trivial = >= 3 data chunks, at least one chunk asserted identical across the original/edited pair (prefix or suffix), and the two write histories differ. Distinct by choice-sequence hash.",
     "assumptions": ["in manual mode both histories call end_chunk at the same content offsets", "bounds relation only for automatic mode without explicit end_chunk calls"],
     "runs": [
-        {"bin": "asan/C16", "cases": P(110, 1500), "procs": P(8, 16), "size": P(60, 100), "shrink_budget": 80},
+        {"bin": "asan/C16", "cases": P(400, 3000), "procs": P(8, 16), "size": P(60, 100), "shrink_budget": 80},
     ],
 }
 
@@ -121,5 +121,19 @@ CHECKS["C03"] = {
     "runs": [
         {"bin": "asan/C03", "cases": P(6000, 60000), "procs": P(8, 16), "size": 70, "cpu_limit": 40, "shrink_budget": 250},
         {"kind": "fuzz", "bin": "asan/fuzz_C03", "cases": P(40000, 1500000), "procs": P(4, 16), "max_len": 6000},
+    ],
+}
+
+CHECKS["C02"] = {
+    "level": "exploration",
+    "technique": "mutation-based generation (raw and structure-aware with re-sealed header, optionally recomputed data checksum) of valid files; differential oracle against an independent specification-derived decoder: success of open+read+close implies content == reference decoding, or == original content when the reference rejects; same for unzck; also a libFuzzer campaign over the same property",
+    "level_text": "Each case alters a generated valid file and reads it through the library under a generated read-size history (and through unzck for a share of cases). The implication 'all calls succeed => returned bytes equal the reference decoding (or the original content)' is checked; about half the alterations are structural and re-sealed, so they get behind the header checksum gate. Sampled.",
+    "level_note": "Trusted: reference parser/decoder, libzstd, OpenSSL one-shot digests. When the reference rejects the altered file the library may still succeed as long as it returns the original content, so reference strictness cannot raise an alarm. Hash collisions ignored.",
+    "rule": "case = (valid file, 1-2 alterations, cyclic read sizes). Non-trivial = altered bytes differ from the original and the library got past the lead/header (open succeeded); distinct by hash of the altered bytes. The histogram reports the share past the header checksum gate.",
+    "assumptions": ["reference decoder is correct", "no hash collisions"],
+    "extra_targets": TOOLS,
+    "runs": [
+        {"bin": "asan/C02", "cases": P(5000, 80000), "procs": P(8, 16), "size": 70, "cpu_limit": 60, "shrink_budget": 300},
+        {"kind": "fuzz", "bin": "asan/fuzz_C02", "cases": P(30000, 1000000), "procs": P(4, 16), "max_len": 6000},
     ],
 }
